@@ -21,15 +21,54 @@ def single(v, k):
     return ds[0].value if len(ds) >= 1 else None
 
 
+def tset(*names):
+    return {n for n in names}
+
+
 def level_counter(v, ob, tag, lvl, q, dq):
+    """q / dq: sets of literal keys whose conjunction is the queue / dequeue strobe."""
     ds = v.drivers(lvl)
     inc = [d for d in ds if lin_eq(d.value, Op("+", (d.target, Const(1))))]
     dec = [d for d in ds if lin_eq(d.value, Op("-", (d.target, Const(1))))]
-    ok = len(ds) == 2 and len(inc) == 1 and len(dec) == 1 and v.guard_keys(inc[0], False) == {q, "~" + dq} and v.guard_keys(dec[0], False) == {"~" + q, dq}
+
+    def split(d):
+        pos, neg = set(), []
+        for a, p in v.guard_lits(d, False):
+            dd = deref(v, a)
+            if p:
+                pos |= nkeys(v, conj(dd, True))
+            elif dd is a and not (isinstance(a, Op) and a.op in ("&", "and")):
+                pos.add(lkey((a, False)))          # a negated primitive belongs to the strobe itself (e.g. ~we)
+            else:
+                neg.append(nkeys(v, conj(dd, True)))
+        return pos, neg
+    ok = len(ds) == 2 and len(inc) == 1 and len(dec) == 1
+    if ok:
+        ip, ineg = split(inc[0])
+        dp, dneg = split(dec[0])
+        ok = ip == q and ineg == [dq] and dp == dq and dneg == [q]
     ob.instance("%s reservation counter" % tag, [str(d) for d in ds])
     if not ok:
         ob.refute("%s:level-counter" % tag, "%s: the reservation counter %s is not +1 on queue&~dequeue / -1 on dequeue&~queue: %s" % (tag, lvl, [str(d) for d in ds]),
                   ds[0].loc if ds else None)
+
+
+def counter_strobes(v, lvl):
+    """The positive conjunct sets under which the counter `lvl` is incremented / decremented."""
+    res = {}
+    for d in v.drivers(lvl):
+        kind = "inc" if lin_eq(d.value, Op("+", (d.target, Const(1)))) else ("dec" if lin_eq(d.value, Op("-", (d.target, Const(1)))) else None)
+        if kind is None:
+            continue
+        pos = set()
+        for a, p in v.guard_lits(d, False):
+            dd = deref(v, a)
+            if p:
+                pos |= nkeys(v, conj(dd, True))
+            elif dd is a and not (isinstance(a, Op) and a.op in ("&", "and")):
+                pos.add(lkey((a, False)))
+        res[kind] = pos
+    return res
 
 
 def write_path(ctx):
@@ -38,22 +77,29 @@ def write_path(ctx):
                           "the buffer pop; the SAME gate (reserved != 0 | reserving now) sits on port.wdata.valid and on the buffer's source.ready", 6)
     ob2 = ctx.ob("C09.2", "write response after data: the B response is pushed (and the ID popped) exactly when the LAST beat leaves the write buffer "
                           "towards the port (source.valid & source.last & source.ready of the buffer itself); the ID is pushed on fire(aw)&first", 3)
+    QW = {"port.cmd.valid", "port.cmd.ready", "port.cmd.we"}
+    DQW = {"w_buffer.source.valid", "w_buffer.source.ready"}
     for rmw in (False, True):
         v = wview(ctx, rmw)
         tag = "rmw=%s" % rmw
-        v0 = v
-        # cmd_request
-        cr = v.single_comb_def(Sym("cmd_request"))
-        ck = litset(conj(cr)) if cr is not None else set()
-        ob1.instance("%s cmd_request" % tag, sorted(ck))
-        rest = sorted(ck - {"aw.valid"})
-        if "aw.valid" not in ck or len(rest) != 1:
-            ob1.refute("%s:cmd_request" % tag, "write cmd_request is %s, expected aw.valid & <buffered-data condition>" % sorted(ck), None)
+        # regular command path: port.cmd.valid <= 1 under aw.valid & <buffered-data condition> & cmd_grant
+        pv = [d for d in v.drivers("port.cmd.valid") if d.fsm is None and is1(d.value)]
+        if not ob1.need(len(pv) == 1, "%s: regular-path driver of port.cmd.valid not found" % tag):
             continue
-        CW = rest[0]                                   # role: can_write
-        cw = [d for d in v.drivers(CW) if not d.guards]
-        cwv = cw[0].value if cw else None
-        ob1.instance("%s %s" % (tag, CW), key(cwv) if cwv is not None else None)
+        lits = v.guard_lits(pv[0], False)
+        flat = []
+        for a, p in lits:
+            d = deref(v, a)
+            flat.extend(conj(d, p) if (d is not a and not (isinstance(d, Op) and d.op in (">", "<", "!=", "=="))) else [(a, p)])
+        gk = {lkey(x) for x in flat}
+        ob1.instance("%s port.cmd.valid (regular path)" % tag, sorted(gk))
+        rest = [x for x in flat if lkey(x) not in ("aw.valid", "cmd_grant")]
+        if not ({"aw.valid", "cmd_grant"} <= gk) or len(rest) != 1 or not rest[0][1]:
+            ob1.refute("%s:cmd-valid" % tag, "the regular write path drives port.cmd.valid under %s, expected aw.valid & <buffered-data condition> & cmd_grant" % sorted(gk), pv[0].loc)
+            continue
+        CW = rest[0][0]                                # role: can_write (a wire or the comparison itself)
+        cwv = deref(v, CW)
+        ob1.instance("%s buffered-data condition" % tag, key(cwv))
         LV = None                                       # role: reservation counter
         if isinstance(cwv, Op) and cwv.op in (">", "<") and len(cwv.args) == 2:
             big, small = (cwv.args[0], cwv.args[1]) if cwv.op == ">" else (cwv.args[1], cwv.args[0])
@@ -61,46 +107,28 @@ def write_path(ctx):
                 LV = key(small)
         if LV is None:
             ob1.refute("%s:can_write" % tag, "%s is %s, expected w_buffer.level > <reserved beats> (a command only for a beat that is already buffered and "
-                       "not yet reserved)" % (CW, key(cwv) if cwv is not None else None), cw[0].loc if cw else None)
+                       "not yet reserved)" % (key(CW), key(cwv)), pv[0].loc)
             continue
-        pv = [d for d in v.drivers("port.cmd.valid") if d.fsm is None]
-        for d in pv:
-            g = v.guard_keys(d, False)
-            ob1.instance("%s port.cmd.valid (regular path)" % tag, sorted(g))
-            if g != {"cmd_request", "cmd_grant"} or not is1(d.value):
-                ob1.refute("%s:cmd-valid" % tag, "the regular write path drives port.cmd.valid under %s, expected cmd_request & cmd_grant" % sorted(g), d.loc)
-        lds = v.drivers(LV)
-        sigs = set()
-        for d in lds:
-            sigs |= {k.lstrip("~") for k in v.guard_keys(d, False)}
-        Q = DQ = None
-        for sg in sigs:
-            dv = v.single_comb_def(Sym(sg))
-            if dv is None:
-                continue
-            kk = litset(conj(dv))
-            if kk == {"port.cmd.valid", "port.cmd.ready", "port.cmd.we"}:
-                Q = sg
-            if kk == {"w_buffer.source.valid", "w_buffer.source.ready"}:
-                DQ = sg
-        if Q is None or DQ is None:
-            ob1.refute("%s:queue-dequeue" % tag, "the reservation counter %s is driven by %s: no strobe equal to fire(port.cmd)&we and none equal to the buffer pop" %
-                       (LV, sorted(sigs)), lds[0].loc if lds else None)
+        cs = counter_strobes(v, LV)
+        if cs.get("inc") != QW or cs.get("dec") != DQW:
+            ob1.refute("%s:queue-dequeue" % tag, "the reservation counter %s is incremented under %s and decremented under %s: expected fire(port.cmd)&we and the buffer pop" %
+                       (LV, sorted(cs.get("inc", [])), sorted(cs.get("dec", []))), (v.drivers(LV) or [pv[0]])[0].loc)
             continue
-        level_counter(v, ob1, tag, LV, Q, DQ)
+        level_counter(v, ob1, tag, LV, QW, DQW)
         wv = single(v, "port.wdata.valid")
         sr = single(v, "w_buffer.source.ready")
-        g1 = litset(conj(wv)) - {"w_buffer.source.valid"} if wv is not None else set()
-        g2 = litset(conj(sr)) - {"port.wdata.ready"} if sr is not None else set()
+        l1 = [x for x in conj(wv) if lkey(x) != "w_buffer.source.valid"] if wv is not None else []
+        l2 = [x for x in conj(sr) if lkey(x) != "port.wdata.ready"] if sr is not None else []
         ob1.instance("%s data gate" % tag, {"wdata.valid": key(wv) if wv is not None else None, "source.ready": key(sr) if sr is not None else None})
-        if wv is None or sr is None or len(g1) != 1 or g1 != g2 or "w_buffer.source.valid" not in litset(conj(wv)) or "port.wdata.ready" not in litset(conj(sr)):
+        if wv is None or sr is None or len(l1) != 1 or {lkey(x) for x in l1} != {lkey(x) for x in l2} or "w_buffer.source.valid" not in litset(conj(wv)) \
+                or "port.wdata.ready" not in litset(conj(sr)) or not l1[0][1]:
             ob1.refute("%s:fork-gate" % tag, "port.wdata.valid = %s and w_buffer.source.ready = %s are not gated by the same reservation term: a beat can leave the "
                        "buffer without being offered to the port (or be offered before its command)" % (key(wv) if wv is not None else None, key(sr) if sr is not None else None), None)
         else:
-            send = v.single_comb_def(Sym(sorted(g1)[0]))
-            sk = litset(disj(send)) if send is not None else set()
-            if sk != {LV, Q}:
-                ob1.refute("%s:send-gate" % tag, "the data gate %s is %s, expected (reserved != 0) | reserving-now" % (sorted(g1)[0], sorted(sk)), None)
+            send = deref(v, l1[0][0])
+            alts = [nkeys(v, conj(a_, p_)) for a_, p_ in disj(send)]
+            if sorted(map(sorted, alts)) != sorted(map(sorted, [{LV}, QW])):
+                ob1.refute("%s:send-gate" % tag, "the data gate %s is %s, expected (reserved != 0) | reserving-now" % (key(l1[0][0]), key(send)), None)
         # C09.2
         rp = [d for d in v.drivers("resp_buffer.sink.valid") if is1(d.value)]
         ip = [d for d in v.drivers("id_buffer.source.ready") if is1(d.value)]
@@ -126,19 +154,26 @@ def read_path(ctx):
     ob = ctx.ob("C09.3", "read reservation: a read command is offered only while reserved != buffer_depth (no weaker condition), the reservation "
                          "bound, the read data buffer depth and the ID/last FIFO depth are the same term; ID/last pushed on fire(ar), popped on fire(axi.r); "
                          "returned data enters the buffer by a whole-record connect", 5)
+    QR = {"port.cmd.valid", "port.cmd.ready", "~port.cmd.we"}
+    DQR = {"r_buffer.source.valid", "r_buffer.source.ready"}
     for rmw in (False, True):
         v = rview(ctx, rmw)
         tag = "rmw=%s" % rmw
-        cq = v.single_comb_def(Sym("cmd_request"))
-        cqk = litset(conj(cq)) if cq is not None else set()
-        rest = sorted(cqk - {"ar.valid"})
-        if "ar.valid" not in cqk or len(rest) != 1:
-            ob.refute("%s:cmd_request" % tag, "read cmd_request is %s, expected ar.valid & <reservation condition>" % sorted(cqk), None)
+        pv = [d for d in v.drivers("port.cmd.valid") if d.fsm is None and is1(d.value)]
+        if not ob.need(len(pv) == 1, "%s: regular-path driver of port.cmd.valid not found" % tag):
             continue
-        CR = rest[0]
-        cr = [d for d in v.drivers(CR) if not d.guards]
-        val = cr[0].value if cr else None
-        ob.instance("%s %s" % (tag, CR), key(val) if val is not None else None)
+        flat = []
+        for a_, p_ in v.guard_lits(pv[0], False):
+            d = deref(v, a_)
+            flat.extend(conj(d, p_) if (d is not a_ and not (isinstance(d, Op) and d.op in (">", "<", "!=", "=="))) else [(a_, p_)])
+        gk = {lkey(x) for x in flat}
+        rest = [x for x in flat if lkey(x) not in ("ar.valid", "cmd_grant")]
+        if not ({"ar.valid", "cmd_grant"} <= gk) or len(rest) != 1 or not rest[0][1]:
+            ob.refute("%s:cmd_request" % tag, "the read command is offered under %s, expected ar.valid & <reservation condition> & cmd_grant" % sorted(gk), pv[0].loc)
+            continue
+        CR = rest[0][0]
+        val = deref(v, CR)
+        ob.instance("%s reservation condition" % tag, key(val))
         LV = None
         if isinstance(val, Op) and val.op in ("!=", "<") and len(val.args) == 2:
             others = [a for a in val.args if key(a) != "buffer_depth"]
@@ -146,8 +181,7 @@ def read_path(ctx):
                 LV = key(others[0])
         if LV is None:
             ob.refute("%s:can_read" % tag, "%s is %s, expected exactly <reserved> != buffer_depth: any weaker condition lets a command through when "
-                      "the reservation (and the equally deep ID/last FIFO) is full, so an ID/last entry or a data word is lost" % (CR, key(val) if val is not None else None),
-                      cr[0].loc if cr else None)
+                      "the reservation (and the equally deep ID/last FIFO) is full, so an ID/last entry or a data word is lost" % (key(CR), key(val)), pv[0].loc)
             continue
         fifos = {str(o): o for o in v.d.objs if o.cls == "SyncFIFO"}
         rb, ib = fifos.get("r_buffer"), fifos.get("id_buffer")
@@ -157,23 +191,12 @@ def read_path(ctx):
             ob.instance("%s depths" % tag, {"r_buffer": key(d1), "id_buffer": key(d2)})
             if key(d1) != "buffer_depth" or key(d2) != "buffer_depth":
                 ob.refute("%s:depths" % tag, "read data buffer depth %s / ID FIFO depth %s differ from the reservation bound buffer_depth" % (key(d1), key(d2)), rb.loc)
-        sigs = set()
-        for d in v.drivers(LV):
-            sigs |= {k.lstrip("~") for k in v.guard_keys(d, False)}
-        Q = DQ = None
-        for sg in sigs:
-            ds_ = [d for d in v.drivers(sg) if not d.guards and not is0(d.value)]
-            if not ds_:
-                continue
-            kk = litset(conj(ds_[0].value))
-            if kk == {"port.cmd.valid", "port.cmd.ready", "~port.cmd.we"}:
-                Q = sg
-            if kk == {"r_buffer.source.valid", "r_buffer.source.ready"}:
-                DQ = sg
-        if Q is None or DQ is None:
-            ob.refute("%s:queue-dequeue" % tag, "the read reservation counter %s is driven by %s: no strobe equal to fire(port.cmd)&~we / to the buffer pop" % (LV, sorted(sigs)), None)
+        cs = counter_strobes(v, LV)
+        if cs.get("inc") != QR or cs.get("dec") != DQR:
+            ob.refute("%s:queue-dequeue" % tag, "the read reservation counter %s is incremented under %s and decremented under %s: expected fire(port.cmd)&~we / the buffer pop" %
+                      (LV, sorted(cs.get("inc", [])), sorted(cs.get("dec", []))), None)
             continue
-        level_counter(v, ob, tag, LV, Q, DQ)
+        level_counter(v, ob, tag, LV, QR, DQR)
         ip = single(v, "id_buffer.sink.valid")
         io = single(v, "id_buffer.source.ready")
         if ip is None or litset(conj(ip)) != {"ar.valid", "ar.ready"} or io is None or litset(conj(io)) != {"axi.r.valid", "axi.r.ready"}:
